@@ -8,3 +8,10 @@ pub use adam::AdamOptions;
 pub(crate) use adapt::Strategy;
 pub use adapt::{StepSizeAdaptMethod, StepSizeAdaptOptions, StepSizeSettings};
 pub(crate) use dual_avg::AcceptanceRateCollector;
+
+#[cfg(nuts_rs_verif)]
+pub mod verif_exports {
+    pub use super::adam::Adam;
+    pub use super::adapt::Strategy as StepSizeStrategy;
+    pub use super::dual_avg::{AcceptanceRateCollector, DualAverage, DualAverageOptions};
+}
